@@ -38,6 +38,8 @@ func rulesC16(c *Ctx) {
 	c09Loop(c)
 	c11Pre(c)
 	c11Post(c)
+	// the listeners a policy calls are those it was built with: Build gives each policy its own snapshot
+	buildCopiesConfig(c)
 }
 
 func c16Executor(c *Ctx) {
@@ -684,6 +686,7 @@ func rulesC08(c *Ctx) {
 	executeAsyncRule(c)
 	asyncResultRules(c)
 	c05Wait(c)
+	c17Flags(c)
 	c06Acquire(c)
 	c05Executor(c)
 	c06Pairing(c)
